@@ -9,6 +9,7 @@ import (
 	"sync"
 	"time"
 
+	"verif/tool/corpus"
 	"verif/tool/gosym"
 	"verif/tool/tsmini"
 )
@@ -78,6 +79,7 @@ func C15(c *Ctx) {
 	c.Harnesses = append(c.Harnesses, "generated zz_verif_spec.go:VerifInterleave")
 	c.Explanation += " Interleaving on distinct contexts is explored at the granularity of semantic actions: the harness starts a complete parse on a fresh context from inside a solver-chosen reduction of another parse and requires both outcomes to equal the solo runs; the set of package-level variables written during an object-mode parse is recorded as a note."
 	runGenEntry(c, "C15", "VerifInterleave", []int{nx + 1, ny}, []string{"go-o", "go-o-u"}, []string{"interleaved"}, nil)
+	c15TS(c, nx, ny)
 }
 
 func C17(c *Ctx) {
@@ -90,6 +92,9 @@ func C17(c *Ctx) {
 	c.Outside = append(c.Outside, "inputs longer than N", "--httpdebug tracing")
 	c.Harnesses = append(c.Harnesses, "harness/gen/ref.go.txt:VerifTrace")
 	runGenEntry(c, "C17", "VerifTrace", []int{N}, GoVariants, []string{"shift-line", "reduce-line", "goto-line", "accept", "reject"}, nil)
+	if c.Rep != nil && c.Rep.Covers["unparsed-line"] > 0 {
+		c.Inconclusive("the trace contains lines in a format the harness does not know (%d paths): the wording of the trace changed; the check cannot decide", c.Rep.Covers["unparsed-line"])
+	}
 }
 
 func C11(c *Ctx) {
@@ -219,5 +224,134 @@ func c11TS(c *Ctx) {
 			}
 		}
 		c.MarkDistinct(s.Name + "/ts")
+	}
+}
+
+// c15TS: the emitted TypeScript parser: parse x, initialize(), parse y must equal y on a fresh parser.
+func c15TS(c *Ctx, nx, ny int) {
+	y, err := c.BuildYGen()
+	if err != nil {
+		c.Inconclusive("%v", err)
+		return
+	}
+	specs := gCorpus(c, 0)
+	g, err := c.Generate(y, specs, []string{"go", "ts"}, nil)
+	if err != nil {
+		c.Inconclusive("%v", err)
+		return
+	}
+	c.Bound("TypeScript: history [x, initialize(), y] against y on a freshly loaded parser, x: %d and y: %d symbolic tokens (tsmini)", nx, ny)
+	for _, s := range g.Specs {
+		src, err := os.ReadFile(g.TSPath(s.Name))
+		if err != nil {
+			c.Inconclusive("%s: %v", s.Name, err)
+			continue
+		}
+		prog, err := tsmini.Parse(string(src))
+		if err != nil {
+			c.Inconclusive("%s: emitted TypeScript is outside the tsmini subset: %v", s.Name, err)
+			continue
+		}
+		s := s
+		name := fmt.Sprintf("%s/ts history %d+%d", s.Name, nx, ny)
+		cfg := g.Eng.Cfg
+		rep := g.Eng.ExploreFunc(name, func(st *gosym.State) {
+			mk := func(n int, tag string) ([]*gosym.Term, []*gosym.Term) {
+				t, v := make([]*gosym.Term, n), make([]*gosym.Term, n)
+				for i := range t {
+					t[i], v[i] = st.Fresh("c"+tag, 64), st.Fresh("v"+tag, 64)
+				}
+				return t, v
+			}
+			yt, yv := mk(ny, "y")
+			xt, xv := mk(nx, "x")
+			fresh, _ := tsRun(st, prog, s, yt, yv, false)
+			mid, in2 := tsRun(st, prog, s, xt, xv, false)
+			if in2 == nil {
+				return
+			}
+			if mid.Kind == 0 {
+				st.Cover("after-accept")
+			} else {
+				st.Cover("after-reject")
+			}
+			func() {
+				defer func() {
+					if r := recover(); r != nil {
+						if th, ok := r.(*tsmini.Throw); ok {
+							st.Assert(gosym.False, "C15: initialize() throws after a parse [typescript]: "+th.Msg)
+							return
+						}
+						panic(r)
+					}
+				}()
+				in2.Call("initialize")
+			}()
+			again := tsRunOn(st, in2, s, yt, yv, false)
+			B := gosym.BoolT
+			st.Assert(B(fresh.Kind == again.Kind), "C15: verdict depends on an earlier parse [typescript]")
+			st.Assert(B(fresh.Requests == again.Requests), "C15: request count depends on an earlier parse [typescript]")
+			same := len(fresh.Log) == len(again.Log)
+			for i := 0; same && i < len(fresh.Log); i++ {
+				same = fresh.Log[i] == again.Log[i]
+			}
+			st.Assert(B(same), "C15: reductions depend on an earlier parse [typescript]")
+			if fresh.Kind == 0 && again.Kind == 0 && fresh.ValKnown && again.ValKnown {
+				st.Assert(gosym.Cmp(gosym.OpEq, fresh.Val, again.Val), "C15: value depends on an earlier parse [typescript]")
+			}
+		}, &cfg)
+		c.absorb(name, rep)
+		for i, v := range rep.Violations {
+			if i >= 1 {
+				break
+			}
+			// TS histories are reported from the engine's model after a node replay of both runs
+			key := fmt.Sprintf("C15:%s:ts:%s", s.Name, v.What)
+			c.confirmTSHistory(prog, s, v, nx, ny, key)
+		}
+		c.MarkDistinct(s.Name + "/ts-history")
+	}
+}
+
+func (c *Ctx) confirmTSHistory(prog *tsmini.Program, s *corpus.Spec, v gosym.Violation, nx, ny int, key string) {
+	get := func(tag string, n int) ([]int64, []int64) {
+		var t, vv []int64
+		for i := 0; i < n; i++ {
+			t = append(t, int64(v.Model[fmt.Sprintf("c%s!%d", tag, i)]))
+			vv = append(vv, int64(v.Model[fmt.Sprintf("v%s!%d", tag, i)]))
+		}
+		return t, vv
+	}
+	yt, yv := get("y", ny)
+	xt, xv := get("x", nx)
+	dir := c.Scratch()
+	run := func(t, vv []int64) string {
+		return fmt.Sprintf(`(function(){ verifTok=%s; verifVal=%s; verifLog=[]; verifRequests=0; let logged=false; const ce=console.error; console.error=function(){logged=true}; let o={}; try { const r=Parser(""); o.k=(r===null||r===undefined)?(logged?1:4):0; if(o.k===0){o.v=JSON.stringify(r)} } catch(e){ o.k=3 } console.error=ce; o.log=verifLog; o.req=verifRequests; return JSON.stringify(o) })()`, jsArr(t), jsArr(vv))
+	}
+	js := prog.StripTypes() + "\nconst A = " + run(yt, yv) + ";\n"
+	js2 := prog.StripTypes() + "\n" + run(xt, xv) + ";\ninitialize();\nconst B = " + run(yt, yv) + ";\n"
+	os.WriteFile(filepath.Join(dir, "a.js"), []byte(js+"console.log('VERIF-H '+A)\n"), 0o644)
+	os.WriteFile(filepath.Join(dir, "b.js"), []byte(js2+"console.log('VERIF-H '+B)\n"), 0o644)
+	oa, _ := runWithTimeout(exec.Command("node", filepath.Join(dir, "a.js")), 30*time.Second)
+	ob, _ := runWithTimeout(exec.Command("node", filepath.Join(dir, "b.js")), 30*time.Second)
+	pick := func(o string) string {
+		for _, l := range strings.Split(o, "\n") {
+			if strings.HasPrefix(l, "VERIF-H ") {
+				return l[8:]
+			}
+		}
+		return ""
+	}
+	a, b := pick(oa), pick(ob)
+	path := filepath.Join(VerifDir, "replays", c.ID, sanitize(key)+".json")
+	WriteJSON(path, map[string]interface{}{"property": c.ID, "key": key, "what": v.What, "grammar": s.Name, "x": xt, "y": yt, "fresh": a, "after_history": b, "grammar_text": s.TSText()})
+	if a == "" || b == "" {
+		c.Inconclusive("%s: node replay failed", key)
+		return
+	}
+	if a != b {
+		c.Report(key, fmt.Sprintf("%s — grammar %s: y=%v gives %s on a fresh parser but %s after parsing x=%v and initialize()", v.What, s.Name, yt, a, b, xt), path)
+	} else {
+		c.Inconclusive("%s: tsmini found a history dependence that node does not reproduce", key)
 	}
 }
